@@ -12,7 +12,10 @@ HARNESS = {"zz_verif_test.go": os.path.join(vlib.ROOT, "harness", "timesafeguard
 # clock offset in ms or `down`; a peer that answers with a clock >= 2 s off must lead to a refusal whatever
 # the other peers do, unreachable peers are ignored
 NET = [("net 0 300", False), ("net 0 down", False), ("net down down", False), ("net 0 3600000", True), ("net 3600000 down", True), ("net down 0 -4000", True),
-       ("net -3600000 0 down down", True), ("net 500 -500 down", False), ("net down 2600 0", True)]
+       ("net -3600000 0 down down", True), ("net 500 -500 down", False), ("net down 2600 0", True),
+       # the -join path (SynchronizedWithMasterAndNetwork): first spec = the node being joined, whose status names the rest
+       ("join 0", False), ("join 3600000", True), ("join -2600 0 0", True), ("join 0 0 300", False), ("join 0 down", False),
+       ("join 0 3600000", True), ("join 0 down -4000", True), ("join 2500 down", True), ("join 300 0 down 0", False)]
 
 
 def net_stage(run, exe):
@@ -118,7 +121,7 @@ def check(run):
             if pr and bad is None:
                 bad = (i, pr)
         nb = net_stage(run, exe)
-        run.obligation("end to end: SynchronizedWithNetwork over HTTPS against fake peers (in sync / off / unreachable), %d scenarios" % len(NET), nb is None, nb[1] if nb else "")
+        run.obligation("end to end: SynchronizedWithNetwork / SynchronizedWithMasterAndNetwork over HTTPS against fake peers (in sync / off / unreachable), %d scenarios" % len(NET), nb is None, nb[1] if nb else "")
         if nb is not None and bad is None:
             run.violation("oracle:" + nb[0], nb[1], {"kind": "timenet", "op": nb[2], "why": nb[1]}, nb[0] != "harness")
         # the peer's side of the measurement: the theorems assume that the reported clock reading is taken while the
